@@ -164,6 +164,7 @@ func checkC15(rep *Report, rng *Rng, tier string) {
 	if tier == "thorough" {
 		n = 5000
 	}
+	probeGetReference(rep)
 	rep.Rule = "seeded histories of mutations, lookups, visits (plain, Ex, iterators, early stops), evictions, flushes, re-opens, snapshots (reads through them, closes in varying order) over 1-3 collections with ItemAlloc/ItemAddRef/ItemDecRef installed; after every step: no count below zero, every item handed to the caller or cached under an open handle (verif-tag dump) has a positive count; at the end everything is closed and every count must be zero; non-trivial = at least 8 ops"
 	HistoryLoop(rep, rng, n, func(r *Rng, i int) (RunCfg, []Op, string) {
 		g := GenCfg{FileBacked: r.Chance(3, 4), NColls: 1 + r.Intn(3), NOps: 30 + r.Intn(70), Structural: true, Visits: true, PrioMode: r.Intn(4), Invalid: r.Chance(1, 3), CollMgmt: r.Chance(1, 3)}
